@@ -226,6 +226,10 @@ impl<S: BuildHasher + Clone + 'static> ExpirationMap<S> {
         Ok(Some(keys))
     }
 
+    pub fn clear(&self) {
+        self.buckets.write().clear();
+    }
+
     pub fn hasher(&self) -> S {
         self.hasher.clone()
     }
